@@ -323,7 +323,15 @@ def check_case(d):
     groups = [list(g) for g in d["groups"]]
     pre = d.get("pre")
     x0 = build_array(spec)
-    x = x0.fuse(*[tuple(g) for g in pre]) if pre else x0
+    try:
+        x = x0.fuse(*[tuple(g) for g in pre]) if pre else x0
+    except Exception as e:  # noqa: BLE001
+        return {
+            "fingerprint": fingerprint_of(d),
+            "nontrivial": True,
+            "failures": [("C05.no_exception", f"preparatory fuse{pre} raised {type(e).__name__}: {e}", {"nested": True, "exception": type(e).__name__, "stage": "pre"})],
+            "sample": None,
+        }
     fails = []
     feats = _features(d, x, groups)
 
